@@ -12,7 +12,7 @@ from engine.expr import Ex, norm, show, walk, alts
 from engine.intervals import dominating_facts
 from engine.mir import AnchorLost, callee_matches
 from engine.paths import paths, decided, called, outcome
-from engine.query import calls_matching, where, field_assignments, mut_borrows_of_field, find_switch_on, ret_alts, enum_variants
+from engine.query import self_rooted, calls_matching, where, field_assignments, mut_borrows_of_field, find_switch_on, ret_alts, enum_variants
 from rules.C01 import patch_rules, ZW
 from rules.shared_codec import tokens
 from rules.shared_panic import panic_rule, is_write_root
@@ -25,7 +25,7 @@ def _flag_assigns(f, flag):
     for bi, si, s in f.stmts():
         if s["k"] == "assign":
             fp = [p.get("n") for p in s["place"]["p"] if p["k"] == "field"]
-            if fp == [flag] and s["place"]["l"] == 1 and s["rv"]["k"] == "use" and s["rv"]["op"]["k"] == "const":
+            if fp == [flag] and self_rooted(f, s["place"], None, (bi, si)) and s["rv"]["k"] == "use" and s["rv"]["op"]["k"] == "const":
                 out.append((bi, si, s, int(s["rv"]["op"]["v"])))
     return out
 
@@ -96,7 +96,7 @@ def ts_rules(facts, rep):
                     "the entry-closing function no longer ends extra-data mode / switches to Stored before touching the plain sink")
     # the match after mem::replace restores a Storer on every non-error arm
     assigns = [(bi, si, s) for (f, bi, si, s) in field_assignments(facts, "inner", r"ZipWriter$") if f.path == ff.path]
-    vals = [norm(exf.rvalue(s["rv"], (bi, si))) for bi, si, s in assigns]
+    vals = [a_ for bi, si, s in assigns for a_ in alts(norm(exf.rvalue(s["rv"], (bi, si))))]
     good = len(vals) >= 2 and all(v[0] == "agg" and v[1] == "adt:Storer" for v in vals) and \
         any(v[3][0][1][0] == "agg" and v[3][0][1][1] == "adt:Unencrypted" for v in vals)
     ok &= rep.check(good, rule, "I2:restore-storer", where(ff, ff.span), "inner := Storer(Unencrypted(..)) / Storer(w) on the success arms",
@@ -249,10 +249,11 @@ def misuse_rules(facts, rep):
         if comp == inv.get("Unsupported"):
             rows["unsupported"] = "bad" if o[0] != "Err" or rows["unsupported"] == "bad" else True
         if comp in (inv.get("Deflated"), inv.get("Bzip2"), inv.get("Zstd")):
-            cl = decided(p, r"^discr\(Try::branch\(Option::ok_or\(write::clamp_opt")
-            if cl == 1:
-                rows["level-out-of-range"] = rows["level-out-of-range"] + 1 if o[0] == "ErrProp" and isinstance(rows["level-out-of-range"], int) else "bad"
-            elif cl is None and o[0] == "Ok":
+            # the level must pass a fallible range check before the encoder is built: a `?` whose operand involves a range membership test
+            rc = [(a, v) for a, v in p["decisions"] if a.startswith("discr(Try::branch(") and _range_checked(facts, sw, a)]
+            if rc and rc[-1][1] == 1:
+                rows["level-out-of-range"] = rows["level-out-of-range"] + 1 if o[0] in ("ErrProp", "Err") and isinstance(rows["level-out-of-range"], int) else "bad"
+            elif not rc and o[0] == "Ok":
                 rows["level-out-of-range"] = "bad"   # a compressing arm that does not range-check its level
     for k, v in rows.items():
         good = v is True or (isinstance(v, int) and not isinstance(v, bool) and v >= 3)
@@ -268,9 +269,10 @@ def misuse_rules(facts, rep):
             ok &= rep.check(good, rule, "range:%s" % nm, where(f[0], f[0].span), "range = [none(), best()] of the codec crate", "%s level range is computed from %s" % (nm, cs))
     co = facts.one(r"^write::clamp_opt$")
     ra = ret_alts(co)
-    good = any(a[0] == "agg" and a[1] == "adt:None" for a in ra) and any(a[0] == "agg" and a[1] == "adt:Some" and a[3][0][1][0] == "arg" for a in ra) and \
-        bool(calls_matching(co, r"RangeInclusive::<Idx>::contains$"))
-    ok &= rep.check(good, rule, "clamp_opt", where(co, co.span), "clamp_opt = Some(value) iff range.contains(value)", "clamp_opt changed: %s" % [show(a) for a in ra])
+    uses_contains = bool(calls_matching(co, r"RangeInclusive::<Idx>::contains$")) or any(calls_matching(c_, r"RangeInclusive::<Idx>::contains$") for c_ in facts.closures_of(co))
+    some_arg = any(x[0] == "agg" and x[1] == "adt:Some" and x[3][0][1][0] == "arg" for a in ra for x in walk(a))
+    good = uses_contains and some_arg and facts.sigs.get(co.path, {}).get("output", "").startswith("std::option::Option<")
+    ok &= rep.check(good, rule, "clamp_opt", where(co, co.span), "clamp_opt yields Some(value) only through range.contains(value)", "clamp_opt changed: %s" % [show(a) for a in ra])
     # ---- add_directory / add_symlink leave writing_to_file false; finish leaves the writer closed
     for nm in ("add_directory", "add_symlink"):
         f = facts.one(ZW + nm + "$")
@@ -298,7 +300,8 @@ def misuse_rules(facts, rep):
     }
     if "unreserved" not in facts.features:
         rows["reserved-low"] = row(lambda p: decided(p, r"^Le\(ok\(ReadBytesExt::read_u16.*, 31\)") == 1)
-        rows["reserved-list"] = row(lambda p: decided(p, r"Iterator::any\(") == 1)
+        rows["reserved-list"] = row(lambda p: decided(p, r"Iterator::any\(|slice::<impl \[T\]>::contains\(|slice::contains\(|::contains\(") == 1
+                                    and decided(p, r"RangeInclusive") is None or decided(p, r"Iterator::any\(|slice::contains\(") == 1)
     for k, v in rows.items():
         ok &= rep.check(v, rule, "validate:%s" % k, where(va, va.span), "row '%s' => Err" % k, "extra-data validation row '%s' is missing or does not reject" % k)
     okp = [p for p in ps if outcome(p)[0] == "Ok"]
@@ -308,15 +311,51 @@ def misuse_rules(facts, rep):
     clo = facts.closures_of(va)
     anyc = calls_matching(va, r"Iterator::any$")
     if "unreserved" not in facts.features:
-        good = bool(anyc) and bool(clo) and not calls_matching(va, r"binary_search|contains$")
-        if good:
+        cont = calls_matching(va, r"slice::<impl \[T\]>::contains$")
+        good = (bool(anyc) and bool(clo) or bool(cont)) and not calls_matching(va, r"binary_search|partition_point|sort")
+        if good and anyc:
             exv = Ex(va)
             src = norm(exv.operand(anyc[0][1]["args"][0], (anyc[0][0], None)))
-            good = "iter()" in tokens(src) and src[0] == "call" and src[2] and src[2][0][0] in ("named", "const")
+            good = "iter()" in tokens(src) and src[0] == "call" and src[2] and src[2][0][0] in ("named", "const", "agg", "repeat")
+        elif good:
+            exv = Ex(va)
+            src = norm(exv.operand(cont[0][1]["args"][0], (cont[0][0], None)))
+            good = src[0] in ("named", "const", "agg", "repeat")
         ok &= rep.check(good, rule, "validate:reserved-linear-scan", where(va, va.span), "EXTRA_FIELD_MAPPING.iter().any(== kind): complete scan of the (unsorted) table",
                         "the reserved header-id test is no longer a complete scan of EXTRA_FIELD_MAPPING (e.g. binary search over the unsorted table misses ids)")
     rep.floor(rule, 20)
     return ok
+
+
+def _range_checked(facts, fn, atom_text):
+    """does the expression behind a `?` decision involve a range-membership test (directly, in a crate-local callee or in a closure)?"""
+    if re.search(r"RangeInclusive::contains|clamp", atom_text):
+        return True
+    names = re.findall(r"(?:write|compression)::([a-z_][a-z0-9_]*)\(", atom_text)
+    seen = set()
+
+    def has(f, d=0):
+        if f.path in seen or d > 3:
+            return False
+        seen.add(f.path)
+        for _, t in f.calls():
+            if callee_matches(t, r"RangeInclusive::<Idx>::contains$|RangeInclusive<.*>::contains$|ops::RangeInclusive"):
+                return True
+            for tg in facts.local_targets(t):
+                if tg in facts.by_path and has(facts.by_path[tg], d + 1):
+                    return True
+        for c in facts.closures_of(f):
+            if has(c, d + 1):
+                return True
+        return False
+    for n in names:
+        for f in facts.fns:
+            if f.name == n and has(f):
+                return True
+    # closures of the analysed function used inside the expression (Option::filter(.., closure))
+    if "closure" in atom_text:
+        return any(has(c) for c in facts.closures_of(fn))
+    return False
 
 
 def _straight(f, b):
